@@ -20,7 +20,7 @@ pub fn scenarios() -> Vec<Scenario> {
         name: "c07-prefix",
         gen,
         run,
-        quick_runs: 50_000,
+        quick_runs: 30_000,
         weight: 1,
         rule: "case = (valid packet, suffix, schedule), evaluated at every cut position (all for <= 2,048 bytes, field boundaries +-2 and 256 spread positions beyond); non-trivial when the encoding has >= 3 bytes; distinct by case hash",
     }]
